@@ -25,15 +25,19 @@ OPTS = dict(quick=dict(task_timeout=400, ob_ms=20000), thorough=dict(task_timeou
 Y = {"SA": ("SA", "y", "data"), "SAv": ("SAv", "y", "data"), "MC": ("MC", "y", "data"), "SAm": ("SA", "y", "model")}
 
 
-def sc_fit(cx, ftype, minimizer, srcs, constraints, fixed, model=None, limits=()):
-    pb = B.build(cx, ftype, minimizer, model=model, sources=[Y[s] for s in srcs], constraints=constraints, fixed=fixed, limits=limits)
+def sc_fit(cx, ftype, minimizer, srcs, constraints, fixed, model=None, limits=(), cost="chi2_fast"):
+    pb = B.build(cx, ftype, minimizer, cost=cost, model=model, sources=[Y[s] for s in srcs], constraints=constraints, fixed=fixed, limits=limits)
     fit = pb.fit
     pb.p = [cx.real("start_q_%s" % nm) for nm in pb.par_names] if False else pb.p
     V0 = pb.total_cov()
     for mn in O.leading_minors(V0):
         cx.assume(mn > 0)
+    if ftype == "xy":
+        for i in range(pb.n):
+            for j in range(i + 1, pb.n):
+                cx.assume(pb.x[i] != pb.x[j])  # full column rank of the design matrix (precondition of the property)
     res = fit.do_fit()
-    tag = "%s/%s" % (ftype, minimizer)
+    tag = "%s/%s" % (ftype, minimizer) + ("" if cost == "chi2_fast" else "/" + cost)
     call, xfull, qfull = B.last_minimisation(pb)
     Vc = fit.total_cov_mat
     cx.eq(tag + ":total_cov_mat", Vc, V0)
@@ -55,6 +59,14 @@ def sc_fit(cx, ftype, minimizer, srcs, constraints, fixed, model=None, limits=()
         for nm, v in pb.fixed.items():
             i = pb.par_names.index(nm)
             cx.eq(tag + ":fixed-%s-in-reported-point" % nm, xfull[i], v)
+    # the pointwise shortcut of the default cost is chosen at fit time: only an exactly diagonal covariance allows it
+    pw = getattr(fit, "_cost_function_pointwise", None)
+    if pw is not None and fit._fitter.parameter_to_minimize == pw.name:
+        off = [V0[i][j] for i in range(pb.n) for j in range(i + 1, pb.n)]
+        if cx.symbolic:
+            cx.eq(tag + ":pointwise-cost-minimised-only-for-a-diagonal-covariance", off, [0.0] * len(off))
+        else:
+            cx.concrete(tag + ":pointwise-cost-minimised-only-for-a-diagonal-covariance", all(float(v) == 0.0 for v in off), info="off-diagonal %r" % ([float(v) for v in off],))
     # (B) plumbing of the results
     pv = fit.parameter_values
     cx.eq(tag + ":parameter_values==backend-x", pv, xfull)
@@ -264,6 +276,10 @@ def scenarios(tier, seed):
                         S.append(Scenario("fit/%s-%s/%s/%s/%s/fixed-%s" % (ftype, model or "lin", minimizer, "+".join(srcs), "+".join(cons) or "noconstraint", "+".join(fixed) or "none"), sc_fit,
                                           family="fit/%s/%s" % (ftype, minimizer), params=dict(ftype=ftype, minimizer=minimizer, srcs=srcs, constraints=cons, fixed=fixed, model=model)))
         S.append(Scenario("fit/xy-lin/%s/SA/noconstraint/limited-a" % minimizer, sc_fit, family="fit/xy/%s" % minimizer, params=dict(ftype="xy", minimizer=minimizer, srcs=["SA"], constraints=(), fixed=(), model="lin", limits=("a",))))
+        # the default cost ('chi2': QR kernel, with the pointwise shortcut chosen at fit time for diagonal covariances)
+        for srcs in (["SA"], ["MC"]):
+            S.append(Scenario("fit/xy-lin/%s/%s/noconstraint/fixed-none/chi2" % (minimizer, "+".join(srcs)), sc_fit, family="fit/xy/%s/chi2" % minimizer,
+                              params=dict(ftype="xy", minimizer=minimizer, srcs=srcs, constraints=(), fixed=(), model="lin", cost="chi2")))
         for case in ("line", "line-correlated", "quadratic", "indexed"):
             S.append(Scenario("numeric/%s/%s" % (case, minimizer), sc_numeric, family="numeric", params=dict(case=case, minimizer=minimizer), concrete_only=True))
     for p in (1, 2):
